@@ -2,8 +2,9 @@
 MH = "src/evaluator/made_hand.rs"
 DP = "src/evaluator/dp_table.rs"
 
-def M(name, props, *edits, benign=False):
-    return dict(name=name, props=props, edits=list(edits), benign=benign)
+def M(name, props, *edits, benign=False, base=None):
+    """base: id of a behaviour-preserving refactoring under /verif/benign applied first (mutants of refactored forms)"""
+    return dict(name=name, props=props, edits=list(edits), benign=benign, base=base)
 
 FE = "src/evaluator/flop_exhaustive.rs"
 CP = "src/hand_range/card_pair.rs"
@@ -299,4 +300,39 @@ MUTANTS = [
     M("benign-c01-weight-expr", ["C01"], (MH, "Rank::Ace => 0b1000000000000,", "Rank::Ace => 1 << 12,"), benign=True),
     M("c07-boundary", ["C07"], (MH, "11..=166 => MadeHandType::Quads,\n            167..=322", "11..=167 => MadeHandType::Quads,\n            168..=322")),
     M("benign-c07-ifchain", ["C07"], (MH, "            3326..=6185 => MadeHandType::Pair,\n            _ => MadeHandType::HighCard,", "            x if x >= 3326 && x < 6186 => MadeHandType::Pair,\n            _ => MadeHandType::HighCard,"), benign=True),
+    # ---- refactored forms (benign/<id>) stay silent, mutants of them fire -------------------------------------------
+    M("benign-B2-1-two-pass-min", ["C02", "C03", "C11"], base="B2-1", benign=True),
+    M("B2-1-flipped", ["C03"], (SD, "if power_index < strongest_index {", "if power_index > strongest_index {"), base="B2-1"),
+    M("B2-1-flag-ne", ["C03"], (SD, "player.win = player.hand.power_index() == strongest_index;", "player.win = player.hand.power_index() != strongest_index;"), base="B2-1"),
+    M("B2-1-flag-skip", ["C03"], (SD, "for player in showdown_players.iter_mut() {", "for player in showdown_players.iter_mut().skip(1) {"), base="B2-1"),
+    M("B2-1-flag-const", ["C03"], (SD, "player.win = player.hand.power_index() == strongest_index;", "player.win = player.hand.power_index() == 0;"), base="B2-1"),
+    M("B2-1-init", ["C03"], (SD, "let mut strongest_index = u16::MAX;", "let mut strongest_index = 7000;"), base="B2-1"),
+    M("benign-B2-2-helper", ["C03", "C11"], base="B2-2", benign=True),
+    M("B2-2-dup-hole", ["C03"], (SD, "MadeHand::from([hole_cards[0], hole_cards[1], b0, b1, b2, b3, b4])", "MadeHand::from([hole_cards[0], hole_cards[0], b0, b1, b2, b3, b4])"), base="B2-2"),
+    M("B2-2-dup-board", ["C03"], (SD, "MadeHand::from([hole_cards[0], hole_cards[1], b0, b1, b2, b3, b4])", "MadeHand::from([hole_cards[0], hole_cards[1], b0, b1, b2, b3, b3])"), base="B2-2"),
+    M("benign-B2-3-contains-store", ["C03", "C11"], base="B2-3", benign=True),
+    M("B2-3-negated", ["C03"], (SD, "player.win = winner_indexes.contains(&i);", "player.win = !winner_indexes.contains(&i);"), base="B2-3"),
+    M("B2-3-fold-two", ["C03"], (SD, ".fold(0, |len, _| len + 1)", ".fold(0, |len, _| len + 2)"), base="B2-3"),
+    M("benign-B4-3-strip-prefix", ["C05", "C06", "C09", "C10", "C17"], base="B4-3", benign=True),
+    M("B4-3-wrong-prefix", ["C10"], (TK, ".strip_prefix(':')", ".strip_prefix('.')"), base="B4-3"),
+    M("B4-3-default-2", ["C10"], (TK, ".unwrap_or(1.0)", ".unwrap_or(2.0)"), base="B4-3"),
+    M("B4-3-marker-swapped", ["C05"], (TK, '    if marker == "s" {\n        RankPair::Suited(high, kicker)', '    if marker == "o" {\n        RankPair::Suited(high, kicker)'), base="B4-3"),
+    M("benign-B5-1-option-compare", ["C06", "C17"], base="B5-1", benign=True),
+    M("B5-1-open-unguarded", ["C06"], (HRS, "            if pocket_start_rank.is_none() {\n                pocket_start_rank = probability.map(|_| rank);\n            }", "            pocket_start_rank = probability.map(|_| rank);"), base="B5-1"),
+    M("B5-1-open-const", ["C06"], (HRS, "pocket_start_rank = probability.map(|_| rank);", "pocket_start_rank = probability.map(|_| Rank::Ace);"), base="B5-1"),
+    M("B5-1-close-eq", ["C06"], (HRS, "if probability != Some(start_probability) {", "if probability == Some(start_probability) {"), base="B5-1"),
+    M("benign-B5-2-run-token-helper", ["C06", "C17"], base="B5-2", benign=True),
+    M("B5-2-single-cond", ["C06"], (HRS, "    } else if start_rank == end_rank {", "    } else if start_rank != end_rank {"), base="B5-2"),
+    M("B5-2-plus-start", ["C06"], (HRS, "HandRangeTokenKind::BottomClosedRankPairRange(pair_of(end_rank))", "HandRangeTokenKind::BottomClosedRankPairRange(pair_of(start_rank))"), base="B5-2"),
+    M("benign-B5-3-orphans-inline", ["C06", "C12", "C17"], base="B5-3", benign=True),
+    M("B5-3-take", ["C06", "C12"], (HRS, "for rank_pair in rank_pairs.keys() {", "for rank_pair in rank_pairs.keys().take(3) {"), base="B5-3"),
+    M("B5-3-other-map", ["C06", "C12"], (HRS, "let mut orphans = self.0.clone();", "let mut orphans = HandRange::empty().0.clone();"), base="B5-3"),
+    M("benign-B6-1-uniform-helper", ["C06", "C12"], base="B6-1", benign=True),
+    M("B6-1-any", ["C12"], (HRS, "            .all(|cp| self.0.get(&cp).is_some_and(|p| p == probability))\n        {\n            Some(*probability)", "            .any(|cp| self.0.get(&cp).is_some_and(|p| p == probability))\n        {\n            Some(*probability)"), base="B6-1"),
+    M("B6-1-weight-const", ["C12"], (HRS, "            Some(*probability)\n        } else {", "            Some(1.0)\n        } else {"), base="B6-1"),
+    M("B6-1-always-some", ["C12"], (HRS, "        } else {\n            None\n        }", "        } else {\n            Some(*probability)\n        }"), base="B6-1"),
+    M("benign-B6-3-if-let-get", ["C06", "C12", "C17"], base="B6-3", benign=True),
+    M("B6-3-ne", ["C12"], (HRS, ".all(|cp| self.0.get(&cp) == Some(probability))\n                {\n                    rank_pairs.insert(pocket", ".all(|cp| self.0.get(&cp) != Some(probability))\n                {\n                    rank_pairs.insert(pocket"), base="B6-3"),
+    M("B6-3-flatten-skip", ["C12"], (HRS, "self.rank_pairs().into_keys().flatten()", "self.rank_pairs().into_keys().flatten().skip(1)"), base="B6-3"),
+    M("B6-3-other-probe", ["C12"], (HRS, "if let Some(probability) = self.0.get(&example_suited) {", "if let Some(probability) = self.0.get(&example_pocket_x) {"), (HRS, "        for high in RankRange::inclusive(Rank::Ace, Rank::Trey) {\n            for kicker in RankRange::inclusive(high.next().unwrap(), Rank::Deuce) {\n                let example_suited", "        for high in RankRange::inclusive(Rank::Ace, Rank::Trey) {\n            for kicker in RankRange::inclusive(high.next().unwrap(), Rank::Deuce) {\n                let example_pocket_x = CardPair::new(Card::new(high, Suit::Spade), Card::new(high, Suit::Heart));\n                let example_suited"), base="B6-3"),
 ]
